@@ -35,13 +35,13 @@ def run(tier, seed, replay=None):
     ck.mc(DIR, "AlgX", "MC_AlgX_2x3.cfg")
     ck.mc(DIR, "AlgX", "MC_AlgX_3x3.cfg")
     if tier == "thorough":
-        ck.mc(DIR, "AlgX", "MC_AlgX_4x3.cfg", timeout=3000)
-        ck.mc(DIR, "AlgX", "MC_AlgX_3x4.cfg", timeout=3000)
+        ck.mc(DIR, "AlgX", "MC_AlgX_4x3.cfg", timeout=14400)
+        ck.mc(DIR, "AlgX", "MC_AlgX_3x4.cfg", timeout=14400)
     ck.mc(DIR, "AlgX", "NC_AlgX_skip.cfg", expect_violation="Complete")
     # link level: build / cover / uncover on the four-way linked node structure refine the matrix-level operations
     ck.mc(DIR, "DlxLinks", "MC_links23.cfg")
     if tier == "thorough":
-        ck.mc(DIR, "DlxLinks", "MC_links33.cfg", timeout=3000)
+        ck.mc(DIR, "DlxLinks", "MC_links33.cfg", timeout=14400)
     ck.mc(DIR, "DlxLinks", "NC_links.cfg", expect_violation="Refines")
     # spec -> code: all matrices of the scope, exported by TLC with the expected number of covers
     cases = []
@@ -107,7 +107,7 @@ def run(tier, seed, replay=None):
         for k, v in r["cov"].items():
             bcov[k] = bcov.get(k, 0) + v
     ck.extra["link_level_coverage_directed_generation"] = bcov
-    sv = ck.validate(DIR, "DlxSteps", st, "cover / uncover histories (wrapped module functions, structure walked)", timeout=3000)
+    sv = ck.validate(DIR, "DlxSteps", st, "cover / uncover histories (wrapped module functions, structure walked)", timeout=14400)
     for v in sv:
         for d in v.get("div", []):
             ck.divergences["links:" + d] = ck.divergences.get("links:" + d, 0) + 1
